@@ -22,6 +22,6 @@ for d, r in res.items():
     own = m.get('property', d.split('-')[0])[:3] if d.startswith('R') else d.split('-')[0]
     own_caught += r.get(own) == 'CAUGHT'
     any_caught += any(v == 'CAUGHT' for v in r.values())
-tail = f"\n\n{len(res)} changes; caught by the quick tier of the property's own check: {own_caught}; caught by some quick check: {any_caught}.\n"
+tail = TAIL_EXTRA = f"\n\n{len(res)} changes; caught by the quick tier of the property's own check: {own_caught}; caught by some quick check: {any_caught}.\n"
 open('/verif/seeded/README.md', 'w').write(head + '\n'.join(rows) + tail)
 print(len(res), own_caught, any_caught)
